@@ -124,15 +124,26 @@ def one_call_wrap(kind, n):
     pd = {"udts": [], "programs": [], "extras": [], "tags": [
         {"name": "x", "scope": None, "type": "DINT", "dims": [], "instance": 3, "access": 0, "alias": False},
         {"name": "y", "scope": None, "type": "DINT", "dims": [], "instance": 4, "access": 0, "alias": False}]}
-    tgt = RefPLC(pd, {"/x": bytes(4), "/y": bytes(4)}, {})
-    harness.install(tgt, budget=200_000)
+    cfg = {}
+    if kind == "many-fragmented":
+        # every request of the call needs a fragmented read (two fragments on a 500-byte connection)
+        pd["tags"].append({"name": "big", "scope": None, "type": "DINT", "dims": [200], "instance": 5, "access": 0, "alias": False})
+        cfg = {"fo_policy": "std"}
+    tgt = RefPLC(pd, {"/x": bytes(4), "/y": bytes(4), "/big": bytes(range(200)) * 4}, cfg)
+    harness.install(tgt, budget=400_000)
     discs = []
     try:
         plc = harness.open_logix(tgt)
-        harness.CURRENT["budget"] = 200_000
+        harness.CURRENT["budget"] = 400_000
         tgt.audits[:] = [a for a in tgt.audits if a[0] != "C17"]
         try:
-            if kind == "write-then-read":
+            if kind == "many-fragmented":
+                plc.read("x")
+                res = plc.read("x", *(["big{200}"] * n))
+                bad = [t for t in res if not t]
+                if bad:
+                    discs.append(Disc("one-call.failed-requests", f"{len(bad)} of {len(res)} reads of one call failed, e.g. {bad[0]!r}"[:300]))
+            elif kind == "write-then-read":
                 plc.write(("x", 7))
                 res = plc.read(*(["x", "y"] * (n // 2)))
                 bad = [t for t in res if not t]
@@ -218,6 +229,7 @@ def plan(tier):
     n = 15 if tier == "quick" else 56
     jobs = [{"part": "hist", "examples": 40 if tier == "quick" else 500} for _ in range(n)]
     jobs.append({"part": "one-call", "kind": "write-then-read", "n": 65534})
+    jobs.append({"part": "one-call", "kind": "many-fragmented", "n": 65535})
     if tier != "quick":
         jobs.append({"part": "one-call", "kind": "bit-write-and-writes", "n": 65272})
         jobs += [{"part": "one-call", "kind": "write-then-read", "n": n} for n in (65270, 65272, 65274, 65532, 65536)]
